@@ -140,6 +140,10 @@ pub enum Item {
     Orig(Lit),
     Break,
     Stmt { label: Option<String>, stmt: Stmt },
+    /// `label .break`: the label marks the address of the next statement, like the breakpoint
+    LBreak(String),
+    /// `label .orig xNNNN`
+    LOrig(String, Lit),
 }
 
 #[derive(Debug, Clone, PartialEq, Eq, Default)]
@@ -260,6 +264,22 @@ pub fn encode(p: &Program, stack: bool) -> Result<Image, Reject> {
                 orig = Some(l.word);
             }
             Item::Break => breaks.push(addr as u16),
+            Item::LBreak(l) | Item::LOrig(l, _) => {
+                if labels.insert(l.as_str(), addr).is_some() {
+                    return Err(Reject::DuplicateLabel { item: i, label: l.clone() });
+                }
+                label_list.push((l.clone(), addr));
+                match item {
+                    Item::LBreak(_) => breaks.push(addr as u16),
+                    Item::LOrig(_, lit) => {
+                        if orig.is_some() {
+                            return Err(Reject::OrigTwice { item: i });
+                        }
+                        orig = Some(lit.word);
+                    }
+                    _ => unreachable!(),
+                }
+            }
             Item::Stmt { label, stmt } => {
                 if let Some(l) = label {
                     if labels.insert(l.as_str(), addr).is_some() {
@@ -514,6 +534,18 @@ pub fn print(p: &Program, lay: &Layout) -> Printed {
             Item::Break => {
                 text.push_str(lay.indent);
                 text.push_str(&cased(".break", lay.case));
+            }
+            Item::LBreak(l) => {
+                text.push_str(l);
+                text.push_str(if lay.colon { ": " } else { " " });
+                text.push_str(&cased(".break", lay.case));
+            }
+            Item::LOrig(l, lit) => {
+                text.push_str(l);
+                text.push_str(if lay.colon { ": " } else { " " });
+                text.push_str(&cased(".orig", lay.case));
+                text.push(' ');
+                text.push_str(&lit_text(lit, lay.case));
             }
             Item::Stmt { label, stmt } => {
                 if let Some(l) = label {
